@@ -388,7 +388,8 @@ def R2(ctx, rule="R2"):
                 # same endpoints, same order, same graph
                 a2 = strip_refs(expr_operand(b, t2["args"][1]))
                 b2 = strip_refs(expr_operand(b, t2["args"][2]))
-                same = same_value_expr(ctx, b, a2, cm["a"]) and same_value_expr(ctx, b, b2, cm["b"])
+                # syntactic identity (both endpoints are elements of the same list)
+                same = a2 == cm["a"] and b2 == cm["b"] and a2 != b2
                 g_same = fl.sources_operand(b, t2["args"][0]) == fl.sources_operand(b, t["args"][0])
                 # taken when false
                 vals = {pc[sym] for pc in cm["pcs"] if sym in pc}
@@ -458,8 +459,10 @@ def R2_chain_filters(ctx, rule, cm):
                         s1 = sources_of_expr(ctx, fcl, strip_refs(re_[2][0]), mode="taint")
                         s2 = sources_of_expr(ctx, fcl, strip_refs(re_[2][1]), mode="taint")
                         ranky = [s for s in (set(s1) | set(s2)) if s.kind == "param" and "ranks" in str(s)]
-                        ok = re_[1] == "std::cmp::PartialEq::ne" and not ranky
-                        why = "filter is `%s`" % fmt_expr(re_, fcl)
+                        cal = (fcl.blocks[re_[3]]["term"].get("callee") or {})
+                        on_ids = "daggy::NodeIndex<" in ((cal.get("self_ty") or {}).get("s") or "")
+                        ok = re_[1] == "std::cmp::PartialEq::ne" and not ranky and on_ids
+                        why = "filter is `%s`%s" % (fmt_expr(re_, fcl), "" if on_ids else " (not a comparison of the two ids)")
                     else:
                         why = "filter predicate is `%s`" % (fmt_expr(re_, fcl) if re_ is not None else "?")
                 ctx.check(ok, rule, "filter|%s" % short(cb.id), m.where(cb),
